@@ -21,4 +21,11 @@ def handleMonC12 : Toks → Option String :=
     let p ← nat; let s ← nat; let f ← nat; let r ← nat
     pure (monC12 cat.toCatalog evs ⟨p, s, f, r⟩)) ts
 
+def handleMonC20 : Toks → Option String :=
+  fun ts => runAll (do
+    let _limit ← nat
+    let plan ← list (do let s ← nat; let st ← nat; let n ← nat; pure (s, st, n))
+    let evs ← list evP
+    pure (monC20 plan evs)) ts
+
 end Cuke.Driver
